@@ -29,7 +29,7 @@ def describe(rep):
 
     rep.func(C.__init__, C.run, C.restart_block, Level.reset_level, Step.reset_step, Step.init_step, Sweeper.predict, Hooks.reset_stats)
     rep.explanation = __doc__
-    rep.rule = 'case = (configuration, scenario); scenarios: fresh twice, same controller twice, two controllers interleaved, split at a block boundary (also of a run whose length is not a whole number of blocks, with a symbolic round-off of k ulp, |k| <= 6, on the end time: scenario splitodd), runs of different lengths on one controller, process isolation'
+    rep.rule = 'case = (configuration, scenario); scenarios: fresh twice, same controller twice, two controllers interleaved, split at a block boundary (also of a run whose length is not a whole number of blocks, with a symbolic round-off of k ulp, |k| <= 6, on the end time: scenario splitodd), runs of different lengths on one controller, process isolation, parameter dictionaries (controller, description, sweeper) handed to several controllers'
     rep.assume('structural identity of the z3 terms implies bit-equal floats for every input (same operations, same order, same constants)',
                'linear stub problems with exact solves; timings and log files excluded')
     rep.out_of_scope('MPI', 'adaptive step sizes (fixed-step runs only, as the property states)')
